@@ -65,6 +65,22 @@ def check_window(ctx, mon_state, rng, width, channels, data, uc):
     nontrivial = any(data)
     ctx.case((data, width, channels, repr(uc)), nontrivial)
     ctx.count("windows")
+    if data and rng.random() < 0.12:
+        # other users of the same bytes object decode it and scribble over THEIR arrays (normalisation in place, zeroing):
+        # what the validator judges is the window, not somebody's working copy
+        import numpy as np
+
+        import auditok
+        import auditok.signal as SG
+
+        ctx.count("windows_whose_decoded_copies_were_modified_in_place")
+        try:
+            for arr in (SG.to_array(data, width, channels), auditok.AudioRegion(data, 16000, width, channels).numpy()):
+                if isinstance(arr, np.ndarray) and arr.flags.writeable:
+                    arr[...] = 0
+        except Exception as exc:
+            ctx.violation("decoding-a-window-raises:" + type(exc).__name__, {"case": case, "exception": repr(exc)[:200]})
+            return
     # first call at an arbitrary threshold to learn the implementation's own energy
     thr0 = rng.uniform(-10, 190)
     mon_state["last"] = None
